@@ -161,6 +161,13 @@ fn opts(l: &Lim, cell: &Rc<RefCell<Option<Rep>>>) -> serde_saphyr::Options {
 }
 
 fn run_entry(entry: &str, text: &str, l: &Lim) -> (String, serde_json::Value, Vec<String>) {
+    // (a panic inside the crate is data: it is reported as an outcome the model does not allow)
+    match std::panic::catch_unwind(std::panic::AssertUnwindSafe(|| run_entry_inner(entry, text, l))) {
+        Ok(r) => r,
+        Err(_) => ("PANIC".to_string(), serde_json::json!([]), vec!["PANIC".to_string()]),
+    }
+}
+fn run_entry_inner(entry: &str, text: &str, l: &Lim) -> (String, serde_json::Value, Vec<String>) {
     let cell: Rc<RefCell<Option<Rep>>> = Rc::new(RefCell::new(None));
     let mut items = vec![];
     let res: String = match entry {
